@@ -551,6 +551,12 @@ func (d *Decoder) LoadParityData() error {
 			// packet (e.g. a partially-written one may
 			// not); its packets are still tied to the
 			// index file's main packet by the set ID.
+			for _, packet := range parityFile.recoveryPackets {
+				if len(packet.data) != d.sliceByteCount {
+					return nil, errors.New("recovery data byte count mismatch")
+				}
+			}
+
 			if parityFile.mainPacket == nil {
 				return &parityFile, nil
 			}
